@@ -150,7 +150,8 @@ def handle (args : List String) (_impl : String) : String × String :=
         (outLC (if k ≤ 64 then Ruint.Gen.shift_right_small (n + 1) lhs k else shrSmall lhs k),
          outLC (toLimbs n (val lhs / 2 ^ k), (val lhs % 2 ^ k) * 2 ^ (64 - k)))
     | "cmp" => let r := parseLimbs x2
-        (ordStr (cmp lhs r), ordStr (specCmp lhs r))
+        -- `algorithms::cmp` GENERATED from the source (`Props/C15.gen_cmp_eq`)
+        (ordStr (Ruint.Gen.limb_cmp (min lhs.length r.length + 1) lhs r), ordStr (specCmp lhs r))
     | _ => ("bad-op", "bad-op")
   | _ => ("bad-op", "bad-op")
 
